@@ -248,7 +248,7 @@ def strategy():
             sel = draw(st.sampled_from(["list_offsets", "list_offsets", "offset_fetch", "find_coordinator", "fetch"]))
             act = draw(st.sampled_from(["error", "drop", "no_reply", "delay"]))
             code = {"list_offsets": [6, 3, 5, 7], "offset_fetch": [14, 16], "find_coordinator": [15],
-                    "fetch": [6, 3, 7]}[sel]
+                    "fetch": [6, 3, 7, 78]}[sel]
             faults.append({"sel": sel, "k": draw(st.integers(0, 2)), "act": act, "code": draw(st.sampled_from(code)),
                            "delay": draw(st.sampled_from([0.05, 0.3, 1.0]))})
         return make_case(g, draw(st.booleans()), draw(st.sampled_from([0.0, 0.001, 0.003, 0.006, 0.01, 0.03, 0.1, 0.5])),
